@@ -85,9 +85,13 @@ def run_case(ctx, case):
     lead = case["lead"]
     ldims = ["t%d" % i for i in range(len(lead))]
     n_face, n_node = g.n_face, g.n_node
-    for field in ("random", "constant"):
-        fdat = rng.normal(size=tuple(lead) + (n_face,)) if field == "random" else np.full(tuple(lead) + (n_face,), 3.5)
-        ndat = rng.normal(size=tuple(lead) + (n_node,)) if field == "random" else np.full(tuple(lead) + (n_node,), -1.25)
+    for field in ("random", "constant", "integer"):
+        if field == "integer":  # category / mask fields stored as integers
+            fdat = rng.integers(-6, 7, size=tuple(lead) + (n_face,)).astype(np.int64 if rng.random() < 0.5 else np.int32)
+            ndat = rng.integers(-6, 7, size=tuple(lead) + (n_node,)).astype(np.int64)
+        else:
+            fdat = rng.normal(size=tuple(lead) + (n_face,)) if field == "random" else np.full(tuple(lead) + (n_face,), 3.5)
+            ndat = rng.normal(size=tuple(lead) + (n_node,)) if field == "random" else np.full(tuple(lead) + (n_node,), -1.25)
         fda = U.UxDataArray(fdat.copy(), dims=ldims + ["n_face"], uxgrid=g, name="f")
         nda = U.UxDataArray(ndat.copy(), dims=ldims + ["n_node"], uxgrid=g, name="n")
         sig = dict(sig0, field=field, rank=len(lead) + 1)
@@ -132,6 +136,30 @@ def run_case(ctx, case):
                     ctx.check("dims_grid", ok_meta(rn), dict(sig, op="gradient_normalized"), {"dims": list(rn.dims)})
         except Exception as e:
             ctx.check("no_exception", False, dict(sig, stage="gradient", exc=core.exc_sig(e)), {"exc": repr(e), "mesh": d})
+    # a second grid in the same process with the very same connectivity but other node positions (a rigid rotation keeps the
+    # distances, so the mesh is deformed: z scaled by 0.6 and renormalised): its distances are its own
+    if case["source"] == "topology":
+        try:
+            xyz2 = ref.unit(m.xyz * np.array([1.0, 1.0, 0.6]))
+            if not np.any(np.abs(xyz2[:, 2]) > 1 - 1e-6):
+                m2 = gen.Mesh(xyz2, m.faces, dict(d, deformed=True), m.closed)
+                g2 = ux.grid_from_mesh(m2)
+                ef2 = np.asarray(g2.edge_face_connectivity.values)
+                en2 = np.asarray(g2.edge_node_connectivity.values)
+                int2 = ef2[:, 1] != ux.INT_FILL
+                P2 = ux.grid_node_xyz(g2)
+                F2 = ref.lonlat_to_xyz(np.asarray(g2.face_lon.values, float), np.asarray(g2.face_lat.values, float))
+                w2 = np.zeros(len(ef2))
+                w2[int2] = ref.angle(F2[ef2[int2, 0]], F2[ef2[int2, 1]])
+                got2 = np.asarray(g2.edge_face_distances.values, dtype=float)
+                ctx.check("edge_face_distances", got2.shape == w2.shape and bool(np.all(np.abs(got2 - w2) <= np.maximum(1e-10, np.where(w2 > 0, 5e-16 / np.maximum(w2, 1e-300), 0.0)))),
+                          dict(sig0, twin="same_connectivity_other_positions"), {"mesh": d})
+                wn2 = ref.angle(P2[en2[:, 0]], P2[en2[:, 1]])
+                gn2 = np.asarray(g2.edge_node_distances.values, dtype=float)
+                ctx.check("edge_node_distances", bool(np.all(np.abs(gn2 - wn2) <= np.maximum(1e-10, 5e-16 / np.maximum(wn2, 1e-300)))), dict(sig0, twin="same_connectivity_other_positions"), {"mesh": d})
+                ctx.observe("deformed_twins")
+        except Exception as e:
+            ctx.check("no_exception", False, dict(sig0, stage="deformed_twin", exc=core.exc_sig(e)), {"exc": repr(e), "mesh": d})
     # the operators above only read the grid: its tables and distances must report the same values afterwards
     try:
         again = (np.asarray(g.edge_node_connectivity.values), np.asarray(g.edge_face_connectivity.values),
